@@ -2832,6 +2832,7 @@ func (c S3ApiController) PutActions(ctx *fiber.Ctx) error {
 			BucketOwner:   parsedAcl.Owner,
 			ObjectETag:    &res.ETag,
 			ObjectSize:    contentLength,
+			VersionId:     nonEmpty(&res.VersionID),
 			EventName:     s3event.EventObjectCreatedPut,
 		})
 }
@@ -3311,6 +3312,7 @@ func (c S3ApiController) DeleteActions(ctx *fiber.Ctx) error {
 			EvSender:    c.evSender,
 			Action:      metrics.ActionDeleteObject,
 			BucketOwner: parsedAcl.Owner,
+			VersionId:   nonEmpty(res.VersionId),
 			EventName:   s3event.EventObjectRemovedDelete,
 			Status:      http.StatusNoContent,
 		})
@@ -4158,4 +4160,12 @@ func SendXMLResponse(ctx *fiber.Ctx, resp any, err error, l *MetaOpts) error {
 	res = append(res, b...)
 
 	return ctx.Send(res)
+}
+
+// nonEmpty returns s, or nil when s is nil or points to an empty string
+func nonEmpty(s *string) *string {
+	if s == nil || *s == "" {
+		return nil
+	}
+	return s
 }
